@@ -56,6 +56,7 @@ type c11Peer struct {
 	reqs    []c11Req
 	problem []string
 	keConns int
+	hold    chan struct{} // if set: a response is held back until the channel is closed
 }
 
 func (p *c11Peer) handle(s *peer.NTPServer, dg []byte, from netip.AddrPort, rx time.Time) {
@@ -161,9 +162,103 @@ func (p *c11Peer) handle(s *peer.NTPServer, dg []byte, from netip.AddrPort, rx t
 	}
 	now := time.Now()
 	hdr := peer.NTPFields{LVM: 0x24, Stratum: 1, Poll: f.Poll, Precision: -30, Origin: f.Transmit, Receive: peer.ToNTP64(rx), Transmit: peer.ToNTP64(now)}.Bytes()
-	s.Send(from, peer.NTSResponse(hdr, uid, cs, keys.S2C))
+	resp := peer.NTSResponse(hdr, uid, cs, keys.S2C)
+	if h := p.hold; h != nil {
+		p.mu.Unlock()
+		<-h
+		p.mu.Lock()
+	}
+	s.Send(from, resp)
 	p.level += want
 	rq.Answered = true
+}
+
+// c11Overlap: a key exchange that outlives its round. The rounds of the time service give up at
+// their deadline while the measurement call of that round, stuck in a stalled TLS handshake, goes
+// on; the next round uses the same client. The stalled exchange fails while the next round's
+// NTS exchange is in flight. Whatever happens, the third round must not crash the client, and
+// the successful second round must not leave the client with a pool it cannot use.
+func c11Overlap(r *ev.Run, p *c11Peer, srvIP netip.Addr, local *net.UDPAddr, keAddr netip.AddrPort) {
+	log := slog.New(slog.DiscardHandler)
+	for k := 0; k < r.Pick(3, 60); k++ {
+		id := fmt.Sprintf("overlap%d", k)
+		if r.Only() != "" && r.Only() != id {
+			continue
+		}
+		c := &client.IPClient{Log: log}
+		c.Auth.Enabled = true
+		c.Auth.NTSKEFetcher = *c20NewFetcher(keAddr)
+		gate := make(chan struct{})
+		first := true
+		var gmu sync.Mutex
+		p.ke.HandshakeGate = func(n int) <-chan struct{} {
+			gmu.Lock()
+			defer gmu.Unlock()
+			if first {
+				first = false
+				return gate
+			}
+			return nil
+		}
+		hold := make(chan struct{})
+		p.mu.Lock()
+		p.nreq, p.reqs, p.problem, p.drop, p.hold = 0, nil, nil, nil, hold
+		p.mu.Unlock()
+		measure := func(d time.Duration) (err error, pnc any) {
+			ctx, cancel := context.WithTimeout(context.Background(), d)
+			defer cancel()
+			pnc = c02Recover(func() {
+				_, _, err = client.MeasureClockOffsetIP(ctx, log, c, local, &net.UDPAddr{IP: srvIP.AsSlice(), Port: 1})
+			})
+			return
+		}
+		// round 1: its key exchange stalls in the TLS handshake and outlives the round
+		done1 := make(chan struct{})
+		go func() { defer close(done1); _, _ = measure(100 * time.Millisecond) }()
+		time.Sleep(150 * time.Millisecond)
+		// round 2 on the same client: key exchange fine, the NTS response is held back
+		type res struct {
+			err error
+			pnc any
+		}
+		done2 := make(chan res, 1)
+		go func() { e, pn := measure(2 * time.Second); done2 <- res{e, pn} }()
+		deadline := time.Now().Add(time.Second)
+		for time.Now().Before(deadline) {
+			p.mu.Lock()
+			n := p.nreq
+			p.mu.Unlock()
+			if n > 0 {
+				break
+			}
+			time.Sleep(2 * time.Millisecond)
+		}
+		close(gate) // round 1's exchange fails now
+		select {
+		case <-done1:
+		case <-time.After(8 * time.Second):
+		}
+		close(hold) // round 2's response arrives
+		p.mu.Lock()
+		p.hold = nil
+		p.mu.Unlock()
+		r2 := <-done2
+		p.ke.HandshakeGate = nil
+		// round 3
+		e3, p3 := measure(1500 * time.Millisecond)
+		r.Eval(3)
+		w := map[string]any{"round2_error": fmt.Sprint(r2.err), "round2_panic": fmt.Sprint(r2.pnc), "round3_error": fmt.Sprint(e3), "round3_panic": fmt.Sprint(p3)}
+		switch {
+		case r2.pnc != nil || p3 != nil:
+			r.Violation("ip-client(NTS)|panic while building or sending a request|after a key exchange that outlived its round", id, w)
+		case r2.err == nil && e3 != nil:
+			r.Violation("ip-client(NTS)|wrong-value:successful exchange left the client unable to complete the next one|after a key exchange that outlived its round", id, w)
+		case r2.err == nil:
+			r.Class("overlap:stalled exchange of an earlier round does not disturb the later rounds")
+		default:
+			r.Class("overlap:round 2 failed (" + firstWord(fmt.Sprint(r2.err)) + ")")
+		}
+	}
 }
 
 func c11ClientLeg(r *ev.Run) {
@@ -307,6 +402,9 @@ func c11ClientLeg(r *ev.Run) {
 		}
 		pat[len(pat)-1] = false
 		run(fmt.Sprintf("p%d", k), pat)
+	}
+	if r.Only() == "" || strings.HasPrefix(r.Only(), "overlap") {
+		c11Overlap(r, p, srvIP, local, keAddr)
 	}
 	p.srv.Close()
 	p.ke.Close()
